@@ -4,8 +4,21 @@ shows up as a disagreement on the unchanged tree."""
 import numpy as np
 
 
+SENTINEL = 10 ** 15 + 7   # stands for "not an integer": makes the case disagree instead of silently truncating
+
+
+def exact_int(x):
+    """int(x) if x is integer-valued, else SENTINEL (a twin must not hide a non-integer state by truncating it
+    the way the dtype cast would: the rule has to receive the row as stored)"""
+    try:
+        xi = int(x)
+    except Exception:
+        return SENTINEL
+    return xi if xi == x else SENTINEL
+
+
 def _vals1(n):
-    return [int(x) for x in np.asarray(n).ravel()]
+    return [exact_int(x) for x in np.asarray(n).ravel()]
 
 
 def unmasked2(n):
@@ -13,16 +26,16 @@ def unmasked2(n):
     if isinstance(n, np.ma.MaskedArray):
         m = np.ma.getmaskarray(n)
         d = n.data
-        return [int(d[i][j]) for i in range(d.shape[0]) for j in range(d.shape[1]) if not m[i][j]]
-    return [int(x) for x in np.asarray(n).ravel()]
+        return [exact_int(d[i][j]) for i in range(d.shape[0]) for j in range(d.shape[1]) if not m[i][j]]
+    return [exact_int(x) for x in np.asarray(n).ravel()]
 
 
 def nbhd2_obs(n):
     """(values, mask) of a 2D neighbourhood as nested lists"""
     if isinstance(n, np.ma.MaskedArray):
-        return [[int(x) for x in row] for row in n.data.tolist()], [[bool(x) for x in row] for row in np.ma.getmaskarray(n).tolist()]
+        return [[exact_int(x) for x in row] for row in n.data.tolist()], [[bool(x) for x in row] for row in np.ma.getmaskarray(n).tolist()]
     a = np.asarray(n)
-    return [[int(x) for x in row] for row in a.tolist()], [[False] * a.shape[1] for _ in range(a.shape[0])]
+    return [[exact_int(x) for x in row] for row in a.tolist()], [[False] * a.shape[1] for _ in range(a.shape[0])]
 
 
 class Lin1:
